@@ -57,7 +57,8 @@ func fk(t, f string) engine.FieldKey {
 	if nf, ok := resolvedFields[[2]string{t, f}]; ok {
 		f = nf
 	}
-	return engine.FieldKey{T: t, F: f}
+	// field keys carry the pinned names (engine.FieldKeyOf maps renamed fields back)
+	return engine.FieldKey{T: t, F: engine.CanonFieldName(t, f)}
 }
 
 // resolveFieldAnchors fills resolvedFields for the program of this check and refreshes the package-level keys.
